@@ -4,6 +4,8 @@
 package leveldb
 
 import (
+	"time"
+
 	"github.com/syndtr/goleveldb/leveldb/table"
 )
 
@@ -86,4 +88,30 @@ func VerifTxnMemEntries(tr *Transaction) []VerifEntry {
 		return nil
 	}
 	return verifMemEntries(tr.mem.DB)
+}
+
+// VerifSettle waits until this DB has no frozen write buffer and needs no table compaction, by queueing behind
+// its own compaction goroutines (no process-wide state: several DBs may settle concurrently). It returns false
+// on timeout or when a compaction reported an error.
+func VerifSettle(db *DB, timeout time.Duration) bool {
+	deadline := time.Now().Add(timeout)
+	for time.Now().Before(deadline) {
+		if db.isClosed() {
+			return true
+		}
+		if err := db.compTriggerWait(db.mcompCmdC); err != nil {
+			return false
+		}
+		if err := db.compTriggerWait(db.tcompCmdC); err != nil {
+			return false
+		}
+		fm := db.getFrozenMem()
+		if fm != nil {
+			fm.decref()
+		}
+		if fm == nil && !db.tableNeedCompaction() {
+			return true
+		}
+	}
+	return false
 }
